@@ -234,6 +234,10 @@ class Engine(_Base, ExprMixin, CallMixin, StmtMixin):
         """`modifies` resolved in the entry state: field name -> allowed object refs (None = any object),
         allowed dict refs, allowed list refs, all-lists flag; or None if everything may be modified"""
         mods = list(c.modifies)
+        if not mods and '#' in c.target:
+            summary = self.reg.contracts.get(c.func_key)
+            if summary is not None:
+                mods = list(summary.modifies)      # a body variant must stay within the frame of its call-site summary
         if '*' in mods:
             return None
         fields, dicts, lists, all_lists = {}, [], [], '*lists' in mods
